@@ -149,7 +149,7 @@ class HostSimpleRequirement(HostRequirement):
             self._add(req)
 
     def __and__(self, other: "HostSimpleRequirement"):
-        newself = copy(self)
+        newself = deepcopy(self)
         newself._add(other)
         return newself
 
